@@ -58,7 +58,7 @@ def make(p):
     return X, y, Xv, yv, kw
 
 
-def analyse(p, m, X, y, Xv):
+def analyse(p, m, X, y, Xv, yv=None):
     """Returns (impl_leaves {path: (centers, moved, reported)}, oracles, oracle_failures)."""
     import torch
     from harness import xrec
@@ -71,6 +71,12 @@ def analyse(p, m, X, y, Xv):
         y_enc = m.class_converter_.labels_to_numerical(y)
     else:
         y_enc = y.float().reshape(n, -1)
+    yv_enc, key2v = None, {}
+    if yv is not None and Xv.shape[0]:
+        yv_enc = m.class_converter_.labels_to_numerical(yv) if m.n_classes_ > 0 else yv.float().reshape(Xv.shape[0], -1)
+        key2v = {xrec.row_key(Xv[i]): i for i in range(Xv.shape[0])}
+        if len(key2v) != Xv.shape[0]:
+            yv_enc = None        # duplicate caller validation rows: targets cannot be attributed by row
     sort_t, perm_t, nval_t = {}, {}, {}
     impl = {}
     root = m.rec_roots[0]
@@ -104,6 +110,15 @@ def analyse(p, m, X, y, Xv):
             continue
         reported = node['train_indices']
         impl[ps] = (centers, moved, reported)
+        # validation targets stay with their rows: routed caller points carry the caller's validation targets, moved
+        # training samples their training targets
+        if yv_enc is not None and lf.get('yval') is not None:
+            w = max(1, y_enc.shape[1])
+            got = torch.tensor(lf['yval'], dtype=torch.float64).reshape(len(lf['xval_keys']), w)
+            exp_rows = [yv_enc[key2v[k]].double().reshape(w) for k in routed if k in key2v] + [y_enc[i].double().reshape(w) for i in moved]
+            if len(exp_rows) == got.shape[0] and got.shape[0] > 0 and not torch.equal(got, torch.stack(exp_rows)):
+                fails.append(('C07:validation-targets-misaligned', f'leaf {ps!r}: the validation targets are not those of its validation rows '
+                              f'({len(routed)} routed caller points followed by {len(moved)} moved training samples)'))
         # --- property, per leaf -------------------------------------------------------------
         if reported != centers:
             fails.append(('C07:reported-indices', f'leaf {ps!r}: train_indices {reported[:8]}.. are not the rows of its centers {centers[:8]}..'))
@@ -182,7 +197,7 @@ def execute(chunk):
                 res['failures'].append({'signature': f'C07:raises:{type(e).__name__}', 'detail': str(e)[:300]})
                 out.append(res)
                 continue
-            impl, oracles, fails = analyse(p, m, X, y, Xv)
+            impl, oracles, fails = analyse(p, m, X, y, Xv, yv)
             for sig, detail in fails:
                 if sig == 'harness':
                     continue
